@@ -75,7 +75,53 @@ for _r, _tr in (("io::IOReader", "Read"), ("eio::EIOReader", "Read")):
         ("- => %s{buff: SlidingBuffer{_pl: PhantomData, cursor: as_mut_ptr(arg2), end: (as_ptr(arg2) + len(arg2))}, reader: arg1}" % _r.split("::")[1], [[]])], {})
 
 
-def check(run, rule, F, crate, keys, what, renames=None):
+# ---- the COBS accumulator (C08, C09).  One outcome per case of the property's case analysis; POS = index of the first zero byte.
+POS = "position(&{iter(arg2)}, closure<- => *arg2 in [0,0]>())"
+N_FIT = "const<N> - len(arg2) - self.idx"
+Z_FIT = "const<N> - self.idx - someval(%s)" % POS
+TAKE = "arg2[0..(someval(%s) + 1)]" % POS
+REST = "arg2[(someval(%s) + 1)..len(arg2)]" % POS
+NEWIDX = "(self.idx + someval(%s) + 1)" % POS
+APPEND_Z = ("#1 = core::slice::<impl [T]>::copy_from_slice(self.buf[self.idx..%s], %s); self.idx := %s; #2 = de::from_bytes_cobs(self.buf[0..%s]); self.idx := 0"
+            % (NEWIDX, TAKE, NEWIDX, NEWIDX))
+V_ACC = {
+    N_FIT: [["const<N>", "1", False], ["len(arg2)", "-1", True], ["self.idx", "-1", False]],
+    Z_FIT: [["const<N>", "1", False], ["self.idx", "-1", False], ["someval(%s)" % POS, "-1", True]],
+    "len(arg2)": [["len(arg2)", "1", True]],
+    "tag(#2)": {"dom": [0, 1]},
+    "tag(%s)" % POS: {"dom": [0, 1]},
+}
+NONEMPTY = L("len(arg2)", (1, None))
+ZERO = T("tag(%s)" % POS, 1)
+NOZERO = T("tag(%s)" % POS, 0)
+ACC_FEED = spec([
+    # nothing offered: nothing happens
+    ("- => FeedResult::Consumed", [[L("len(arg2)", (0, 0))]]),
+    # no terminator in the chunk and it fits: appended at idx, idx grows by the chunk length
+    ("#1 = core::slice::<impl [T]>::copy_from_slice(self.buf[self.idx..(len(arg2) + self.idx)], arg2); self.idx := (len(arg2) + self.idx) => FeedResult::Consumed",
+     [[NONEMPTY, NOZERO, L(N_FIT, (0, None))]]),
+    # no terminator and it does not fit: state reset, the bytes beyond the free space are handed back
+    ("self.idx := 0 => FeedResult::OverFull(arg2[(const<N> - self.idx)..len(arg2)])", [[NONEMPTY, NOZERO, L(N_FIT, (None, -1))]]),
+    # terminator at POS, segment (through the terminator) does not fit: reset, hand back what follows the terminator
+    ("self.idx := 0 => FeedResult::OverFull(%s)" % REST, [[NONEMPTY, ZERO, L(Z_FIT, (None, 0))]]),
+    # terminator, fits: append through the terminator, decode exactly buf[..idx], reset, report with what follows the terminator
+    ("%s => FeedResult::Success{data: okval(#2), remaining: %s}" % (APPEND_Z, REST), [[NONEMPTY, ZERO, L(Z_FIT, (1, None)), T("tag(#2)", 0)]]),
+    ("%s => FeedResult::DeserError(%s)" % (APPEND_Z, REST), [[NONEMPTY, ZERO, L(Z_FIT, (1, None)), T("tag(#2)", 1)]]),
+], V_ACC)
+HAND["<accumulator::CobsAccumulator<N> as ->::feed_ref"] = ACC_FEED
+HAND["<accumulator::CobsAccumulator<N> as ->::feed"] = ACC_FEED
+HAND["<accumulator::CobsAccumulator<N> as ->::new"] = spec([("- => CobsAccumulator{buf: [0; N], idx: 0}", [[]])], {})
+
+
+def acc_inline(fn, ev):
+    """inside the accumulator only its own private helpers are inlined: the segment decoder stays a call"""
+    return fn.crate in summ2.LOCAL_CRATES and fn.canon.startswith("postcard::accumulator::")
+
+
+INLINE = {k: acc_inline for k in HAND if k.startswith("<accumulator::")}
+
+
+def check(run, rule, F, crate, keys, what, renames=None, per_outcome=False):
     """compare the listed functions with their hand-written specification; a missing function fails closed"""
     fns = {summ.fn_key(f): f for f in crate.fns}
     n = 0
@@ -84,6 +130,6 @@ def check(run, rule, F, crate, keys, what, renames=None):
         if f is None:
             run.bad(rule, k, "function with a hand-written specification not found (public API / trait method renamed or removed?)")
             continue
-        summ2.check(run, rule, f, HAND[k], F, what=what, renames=renames, hyps=glue.invariants_for(f))
+        summ2.check(run, rule, f, HAND[k], F, what=what, renames=renames, hyps=glue.invariants_for(f), inline=INLINE.get(k), per_outcome=per_outcome)
         n += 1
     return n
